@@ -53,6 +53,12 @@ def encode_arg(st, v):
         return [z3.IntVal(atom_code("obj:" + getattr(v.cls, "__name__", "?")))]
     if getattr(v, "is_text", False):
         return [z3.Int(f"{v.name}$id"), V._z(v.offset), V._z(v.length)]
+    if type(v).__name__ in ("LRef", "RowRef") and getattr(v.seq, "row_id", None) is not None:
+        v = v.seq  # `grid[i]`: the row stored in slot i (rows are held by value)
+    if getattr(v, "row_id", None) is not None:
+        # a row of a fresh nested list (seqs.fresh_seq): identified by the list and the row's index
+        name, idx = v.row_id
+        return [z3.IntVal(atom_code("row:" + name)), *idx]
     if isinstance(v, tuple):
         out = [z3.IntVal(len(v))]
         for x in v:
